@@ -1085,6 +1085,8 @@ class Engine:
                 if isinstance(v, VDict) and all(sym.is_concrete_bool(p) is True for p, _ in v.items.values()):
                     for k2, (_, v2) in v.items.items():
                         kwargs[k2] = v2
+                elif isinstance(v, (VMap, VObj, VDict)):
+                    kwargs["__star_kwargs__"] = v      # understood by model-provided callables only
                 else:
                     raise Unsupported("call with **symbolic mapping")
             else:
